@@ -327,7 +327,7 @@ def exhaustive_cases(tier):
         for T in Ts:
             for ln in range(0, T + 1):
                 for s, e in itertools.product(srange, srange):
-                    if not thorough and (s * 7 + e * 3 + ln + T) % 3 == 0 and abs(s - e) > 4:
+                    if not thorough and (s * 7 + e * 3 + ln + T + len(mode)) % 2 == 0 and abs(s - e) > 2:
                         continue
                     comp_len = max(1, T - 1) if T else 0
                     comp = (comp_len, (-1 if mode != "reflect" or comp_len > 1 else 0), comp_len + (1 if comp_len > 1 or mode != "reflect" else 0))
@@ -356,7 +356,7 @@ def exhaustive_cases(tier):
             for ln in range(0, T + 1):
                 for p0, p1 in itertools.product(props, props):
                     for u0, u1 in itertools.product(us, us):
-                        if not thorough and (us.index(u0) + us.index(u1) + ln + props.index(p0)) % 3:
+                        if not thorough and (us.index(u0) * 3 + us.index(u1) + ln + props.index(p0) * 5 + props.index(p1) + T) % 8:
                             continue
                         c = shift_case(2, T, [], [ln, T], mode, (p0, p1), True, [u0, u1], [u1, u0])
                         if (us.index(u0) + props.index(p1) + T) % 2:
@@ -396,6 +396,8 @@ def corner_cases():
         cs.append(dict(shift_case(2, 4, [], [4, 2], mode, ("1/2", "1/2"), True, ["3/4", "3/4"], ["1/2", "1/4"]), functional=True))
         cs.append(shift_case(2, 4, [], [4], mode, ("1/2", "1/2"), True, ["3/4", "3/4"], ["1/2", "1/4"]))  # lens shape
         cs.append(shift_case(1, 4, [], [4], mode, ("2", "5/2"), True, ["3/4"], ["1/2"]))
+        for pair in (("-1/2", "1/2"), ("1/2", "-1/4")):   # RandomShift.__init__: ValueError
+            cs.append(shift_case(1, 4, [], [4], mode, pair, True, ["3/4"], ["1/2"]))
         for pair in (("0", "1/2"), ("1/2", "0"), ("1/4", "1"), ("1", "1/4")):
             for fn in (False, True):
                 c = shift_case(2, 4, [], [4, 4], mode, pair, True, ["1023/1024", "3/4"], ["1023/1024", "3/4"])
@@ -658,13 +660,15 @@ def run(chk, cases=None):
             c = c.get("case", c)
             c["stream"] = "corpus"
             cases.append(c)
-        cases += random_cases(chk.rng, 12000 if chk.tier == "thorough" else 1500)
+        cases += random_cases(chk.rng, 12000 if chk.tier == "thorough" else 1000)
         if chk.tier == "thorough":
             chk.extra["exhaustive"] = True
             chk.extra["exhaustive_scope"] = (
                 "2-row ragged batches, T<=4, row 0: every len<=T x (pad_l,pad_r) in 0..9^2 x 3 modes x both row orders; "
                 "every slice (start,end) in -5..9^2; all masks for (N,T) up to (3,3)/(2,4) x batch_first; shift: len<=T, "
                 "prop in {0,1/2,1,3/2}^2, u in {0,1/4,1/2,3/4,1023/1024}^2")
+    import time
+    t_start = time.time()
     outs, terms, metas = [], [], []
     for c in cases:
         stream = c.pop("stream", "random")
@@ -691,7 +695,10 @@ def run(chk, cases=None):
                 chk.count("slice=" + kind)
         if c["api"] == "pad":
             chk.count("pad>T=%s" % any(p > c["T"] for p in c["pl"] + c["pr"]))
+    t_impl = time.time()
     res = coq_eval_bools(chk.workdir, IMPORTS, terms)
+    t_coq = time.time()
+    chk.extra["phase_s"] = {"implementation": round(t_impl - t_start, 1), "model_in_coq": round(t_coq - t_impl, 1)}
     bad = [i for i, ok in enumerate(res) if not ok]
     chk.extra["model_disagreements"] = len(bad)
     # the property's own metamorphic relations, on a slice of the cases
